@@ -478,6 +478,11 @@ def c13_jobs(tier):
             for part in (1, 3, 4) if tier == 'quick' else (1, 2, 3, 4):
                 if part == 3 and via != 0: continue
                 js.append(conv_job(s, d, via=via, ptr=1, part=part))
+    # (iii) minimal-requirement archetype: trivially copyable but not assignable, and its non-trivial twin
+    from .jobs import arch_job
+    for n in (0, 2):
+        for std in (('c++17',) if tier == 'quick' else ('c++11', 'c++17', 'c++20')):
+            js.append(arch_job(1, n, std)); js.append(arch_job(0, n, std))
     for std in ('c++20',):
         for (s, d) in [('long', 'long long'), ('int', 'unsigned'), ('short', 'int')]:
             js.append(conv_job(s, d, via=0, part=1, std=std)); js.append(conv_job(s, d, via=1, part=4, std=std))
@@ -488,7 +493,7 @@ REG['C13'] = Spec('C13', c13_jobs, tags=['C13', 'C01'], memsafe=True, compile_fa
     '(ii) construct / assign / insert / append / emplace from a contiguous range (raw pointers and small_vector iterators: what selects the bulk-copy path) and from forward iterators of a DIFFERENT source type: every stored '
     'element must equal static_cast<T>(source) for all source values: integral pairs of equal and different width and signedness, bool, enums, char kinds, floating point, pointer pairs including Derived* -> second base (offset adjustment), void*. '
     'A source/destination pair that the generic path accepts but that does not compile on the bulk-copy path is reported as a violation (front-end decided).',
-    bounds=lambda tier: {'conversion_range_length': '<= 3 (2 for insert)', 'source_values': 'all 2^32 inputs mapped into the source type', 'archetypes': 'minimal-requirement archetype grid not built (see DESIGN.md)'})
+    bounds=lambda tier: {'conversion_range_length': '<= 3 (2 for insert)', 'source_values': 'all 2^32 inputs mapped into the source type', 'archetypes': 'one archetype pair (trivially copyable / non-trivial, both non-assignable) over the construction-only operations; the full per-operation archetype grid is not built'})
 
 # ---------------------------------------------------------------- C08: constant evaluation (forced at run time)
 def c08_jobs(tier):
